@@ -45,8 +45,10 @@ def clause_tables(rep):
 
 
 def run(rep):
+    common.load_contracts()
+    from contracts.sql import C13_SHAPE_CASES
     return generic.run_generic(
-        rep, tc.NAV_FUNCS + [(tc.GT, 'new group'), ('sqlparse.engine.grouping.group_where', 'call sites'),
+        rep, tc.NAV_FUNCS + list(C13_SHAPE_CASES) + [(tc.GT, 'new group'), ('sqlparse.engine.grouping.group_where', 'call sites'),
                              ('sqlparse.engine.grouping.group_where', 'call sites, inside a bracket or block group'),
                              ('sqlparse.sql.IdentifierList.get_identifiers', 'body'),
                              ('sqlparse.sql.Comparison.left', 'total'), ('sqlparse.sql.Comparison.right', 'total')] + tc.JOINER_FUNCS,
@@ -58,9 +60,13 @@ def run(rep):
                      'closing delimiter when the clause stands inside a parenthesis / bracket / CASE / IF / FOR / BEGIN group), the '
                      'joiner _group with its passes (indices, recursion, no delimiter absorbed), get_identifiers (yields exactly '
                      'the children that are neither whitespace nor commas, in order), Comparison.left/right (first / last '
-                     'child); which neighbours the joiner passes '
-                     'accept, get_parameters beyond totality, get_cases and the composition of the passes on grammar scripts '
-                     'are covered by data / shape obligations and the bounded stand-in'],
+                     'child); Function.get_parameters() on the shapes f(), f(x), f(a, b), f(a, b, c) (arguments: nodes of the argument '
+                     'classes or literal / wildcard leaves; separators comma + whitespace run) returns exactly the written '
+                     'argument nodes in order (the generator get_identifiers is executed in place on the explicit list); '
+                     'Case.get_cases(skip_ws=True) on CASE (WHEN c THEN v){1,2} [ELSE e] END returns exactly the written '
+                     'WHEN/THEN/ELSE parts; which neighbours the joiner passes accept, and the composition of the passes on '
+                     'grammar scripts (that these shapes are what the grouping builds) are covered by data / shape obligations '
+                     'and the bounded stand-in'],
         trusted=['CPython re engine'])
 
 
